@@ -2,9 +2,13 @@ API = {"dir": "api", "pkgname": "api"}
 
 SPEC = {
     "go": [dict(API, files=["api/c08_rig_test.go", "api/c08_generic_test.go", "api/c08_fuzz_test.go", "api/c08_test.go"],
-                test="TestVerifC08", n_quick=1200, n_thorough=48000, shards_quick=6, shards_thorough=16),
-           dict(dir="consensus/raft", pkgname="raft", files=["raft/c08_logop_test.go"],
-                test="TestVerifC08LogOp", n_quick=260, n_thorough=6000, shards_quick=4, shards_thorough=12)],
+                test="TestVerifC08", n_quick=1500, n_thorough=60000, shards_quick=6, shards_thorough=16),
+           dict(dir="consensus/raft", pkgname="raft", files=["c08_pins_test.go.tmpl", "raft/c08_logop_test.go"],
+                test="TestVerifC08LogOp", n_quick=260, n_thorough=6000, shards_quick=4, shards_thorough=12),
+           dict(dir="state/dsstate", pkgname="dsstate", files=["c08_pins_test.go.tmpl", "dsstate/c08_snap_test.go"],
+                test="TestVerifC08Snap", n_quick=80, n_thorough=2000, shards_quick=2, shards_thorough=8),
+           dict(dir="cmdutils", pkgname="cmdutils", files=["c08_pins_test.go.tmpl", "cmdutils/c08_import_test.go"],
+                test="TestVerifC08Import", n_quick=80, n_thorough=2000, shards_quick=2, shards_thorough=8)],
     "rule": "generated values pushed through the real codecs, one stream per boundary: pb = pins of every type/depth (0..4 allocations "
             "and origins, metadata incl. empty and non-ASCII keys, CIDv0/v1 references, expiry zero / unix-zero / negative / sub-second / "
             "year 10000, int32/uint64 boundaries, invalid UTF-8, invalid peer IDs) through ProtoMarshal/ProtoUnmarshal; pbmsg = arbitrary "
@@ -17,7 +21,11 @@ SPEC = {
             "factors 0 / -1 / n, names, metadata, expiry, references, pin-update, where later pins leave EMPTY what earlier ones set, encoded and decoded "
             "with go-libp2p-raft's own encode/decode into ONE shared LogOp and applied with the real LogOp.ApplyTo on a dsstate (plus the same bytes through the real "
             "FSM.Apply), the pin handed to the tracker and the pin read back from the state per entry; onto = a pin decoded straight on top of another; "
-            "non-trivial = the value sets at least two optional fields (pb), a later entry empties a field of an earlier one (logop, onto), any list/map/expiry (q), a multi-bit mask (st), every "
+            "mpo / jso = a value B of each of the 21 record types decoded by ugorji msgpack / encoding/json INTO a destination that already holds a value A of the type (A mostly full, "
+            "B mostly sparse: empty members, nil pointers, shorter lists, other map keys), against dec_onto; snap (package state/dsstate) = pinsets of 2..7 different pins through the real "
+            "State.Marshal and State.Unmarshal onto the in-memory datastore, every pin read back; import (package cmdutils) = pinsets of 2..7 pins with different metadata through the real "
+            "exportState and importState, every pin read back; "
+            "non-trivial = the value sets at least two optional fields (pb), every mpo / jso case, >= 2 stored pins (snap; import: >= 2 with metadata), a later entry empties a field of an earlier one (logop, onto), any list/map/expiry (q), a multi-bit mask (st), every "
             "mp/js/eq/pbmsg case; distinct = distinct canonical JSON of the input",
     "codes": {1: "model_eq_impl (C08 codecs)",
               10: "pb_roundtrip (stored protobuf form of a well-formed pin)",
@@ -30,6 +38,8 @@ SPEC = {
               17: "equals_detects_every_field (Pin.Equals / PinOptions.Equals against field-by-field sameness)",
               21: "logop_reuse_roundtrip (a well-formed Raft log entry, decoded into the FSM's one shared LogOp and applied, hands the tracker the submitted pin "
                   "and stores its protobuf form, whatever the earlier entries were)",
+              22: "stream_fresh_roundtrip (a stream of records decoded in a loop - snapshot of a pinset through State.Marshal / Unmarshal, state export / import - "
+                  "hands every well-formed pin back as its own stored form, whatever record was decoded before it)",
               20: "decoder_total (a malformed input makes a decoder panic or yield a value that cannot be re-encoded)"},
     "tags": {1: "origins-undecodable"},
     "gen": ["C08Status", "C08Tags"],
@@ -45,15 +55,16 @@ SPEC = {
         "tools/gen/c08_status.go and c08_tags.go (syntactic translators of the constant table and the struct tags; embedded structs promoted as Go does; "
         "the LogOp rows come from consensus/raft/log_op.go, its span-context field - a struct of the tracing library, omitempty, zero unless tracing is on - is not described "
         "and the harness checks that it never appears on the wire)",
-        "ugorji/go/codec decoding into a value in use behaves as Model/C08_Reuse.v dec_onto says (absent keys untouched, maps merged, slices re-sized and decoded element-wise, "
-        "set pointers kept); compared with the real decoder on Pin values at every run (stream onto); the cases that no Pin field exercises (struct elements of slices, map values decoded "
-        "on top of old ones, a nil wire value under a set pointer) were probed once and are not re-checked",
+        "decoding into a value in use (Model/C08_Reuse.v dec_onto, rules of ugorji msgpack and of encoding/json) is compared with the real decoders on every record type at every run (streams mpo / jso); "
+        "outside the model: an empty collection is the nil one (a non-nil empty map on the wire would not reset the destination), and the backing arrays both libraries keep "
+        "(elements between an earlier length and the capacity of a slice; a []byte decoded into the old array, which is how the seeded State.Unmarshal change corrupts stored values: "
+        "seen by stream snap on the real code, not by the model)",
         "the malformed-input stream is fuzzing (a test, not a theorem): absence of panics is sampled",
     ],
-    "level_text": "31 theorems (Props/C08.v, all closed) over Gallina transcriptions of ProtoMarshal/ProtoUnmarshal/convertPinType, ToQuery/FromQuery with "
+    "level_text": "33 theorems (Props/C08.v, all closed) over Gallina transcriptions of ProtoMarshal/ProtoUnmarshal/convertPinType, ToQuery/FromQuery with "
                   "real string split/join and decimal printing/parsing, TrackerStatus.String/FromString over the constant table regenerated from the "
                   "source, the msgpack/JSON field maps over the struct-tag table regenerated from the source (one generic round-trip theorem for every "
-                  "well-formed tag table, instantiated on the current one), Pin.Equals/PinOptions.Equals, (growth item) a byte-level proto3 writer/reader of the stored pin, and the Raft FSM loop that decodes every log entry into one shared LogOp (decoding onto a used value, LogOp.ApplyTo with its reset of op.Cid: every well-formed entry comes out as itself whatever preceded it; refuted without the reset); each transcription is compared with the "
+                  "well-formed tag table, instantiated on the current one), Pin.Equals/PinOptions.Equals, (growth item) a byte-level proto3 writer/reader of the stored pin, and the Raft FSM loop that decodes every log entry into one shared LogOp (decoding onto a used value, LogOp.ApplyTo with its reset of op.Cid: every well-formed entry comes out as itself whatever preceded it; refuted without the reset), decoding onto a used destination for both codecs and the record streams of State.Unmarshal / importState (fresh destination per record: identity; one destination for the stream: refuted for both codecs); each transcription is compared with the "
                   "real code on generated values at every run and the implementation's own output is checked against the boolean form of the property",
     "level_note": "byte-level msgpack/JSON/url encoders are trusted libraries (the protobuf wire format of the stored pin is modelled and proved as a growth item); models tied to code by differential testing (generator-bounded) and two translators; "
                   "S19 (origins undecodable from msgpack/JSON) is a finding: full statement refuted, partial statement proved; decoder totality on raw "
